@@ -62,7 +62,7 @@ pub fn run_model_threads<F: Fam>(ctx: &Ctx, prop: &'static str, label: &str, str
         ctx.info(&format!("{}_{label}_counterexample_path", F::NAME), json!(ce));
     }
     // non-vacuity: a well-formed stream must reach a terminal Ok and partial body states must exist
-    if label == "wellformed" && (stats.done_ok.load(Relaxed) == 0 || stats.partial_body_states.load(Relaxed) < 2) {
+    if label == "wellformed" && stats.violations.lock().unwrap().is_empty() && (stats.done_ok.load(Relaxed) == 0 || stats.partial_body_states.load(Relaxed) < 2) {
         ctx.info("machinery_error", json!(format!("vacuous exploration for {} {label}: done_ok={} partial_body={}", F::NAME, stats.done_ok.load(Relaxed), stats.partial_body_states.load(Relaxed))));
     }
 }
@@ -400,13 +400,19 @@ pub fn c08(ctx: &Ctx) {
         let pk: Vec<(F::Packet, Vec<u8>)> = alpha
             .iter()
             .filter_map(|a| {
-                let p = F::from_ast(a)?;
-                let b = F::encode(&p).ok()?.as_ref().to_vec();
-                Some((p, b))
+                guard(|| {
+                    let p = F::from_ast(a)?;
+                    let b = F::encode(&p).ok()?.as_ref().to_vec();
+                    Some((p, b))
+                })
+                .ok()
+                .flatten()
             })
             .collect();
         if pk.len() != alpha.len() {
-            ctx.info("machinery_error", json!(format!("{}: {} of {} alphabet packets could not be built/encoded", F::NAME, alpha.len() - pk.len(), alpha.len())));
+            // constructing or encoding a valid packet failed or panicked: C01/C02 report the cause; here it is
+        // a violation too, because the sequence cannot be framed at all
+        ctx.violation(format!("C08:{}:alphabet-packet-cannot-be-encoded", F::NAME), format!("{} of {} valid alphabet packets could not be built/encoded", alpha.len() - pk.len(), alpha.len()), json!({"kind":"alphabet","family":F::NAME}));
         }
         ctx.count(&format!("{}_alphabet", F::NAME), pk.len() as u64);
         let seqs = sequences(pk.len(), seq_len);
